@@ -346,6 +346,107 @@ func runC02(r *engine.Run) {
 		}
 	})
 
+	// ---- E: a frame obtained by decoding, whose exported fields are then changed (FOpts replaced by a
+	// list of another length, FCtrl copied into a new frame): a frame value is its exported fields, so the
+	// MIC is the specification MIC of the frame the encoder emits for it
+	spE := (&engine.Space{}).Dim("decoded foptslen", 16).Dim("new foptslen", 16).Dim("direction", 2).Dim("version", 2).Dim("how{FOpts replaced in the decoded frame, FCtrl value copied into a constructed frame}", 2)
+	r.PartDims("E/modified-after-decode", spE.Desc(), spE.N(), func(c *engine.Case) {
+		var ch [5]int
+		spE.Decode(c.Index, ch[:])
+		uplink := ch[2] == 1
+		m := base
+		m.v11 = ch[3] == 1
+		f := spec.DataFrame{MType: 3, DevAddr: 0x01020304, FCnt: 9, ADR: true, HasPort: true, FPort: 10, FRM: fillBytes(4, 0x11)}
+		if uplink {
+			f.MType = 2
+		}
+		f.FOpts = fillBytes(ch[0], 0xB0)
+		var p lorawan.PHYPayload
+		if err := p.UnmarshalBinary(append(f.Msg(), 1, 2, 3, 4)); err != nil {
+			c.Fail("E/decode-error", err.Error(), nil)
+			return
+		}
+		g := f
+		g.FOpts = fillBytes(ch[1], 0x5C)
+		var newFOpts []lorawan.Payload
+		if ch[1] > 0 {
+			newFOpts = []lorawan.Payload{&lorawan.DataPayload{Bytes: append([]byte(nil), g.FOpts...)}}
+		}
+		q := &p
+		if ch[4] == 0 {
+			p.MACPayload.(*lorawan.MACPayload).FHDR.FOpts = newFOpts
+		} else {
+			built, err := buildFrame(g, nil, nil)
+			if err != nil {
+				c.Fail("harness/build", err.Error(), nil)
+				return
+			}
+			built.MACPayload.(*lorawan.MACPayload).FHDR.FCtrl = p.MACPayload.(*lorawan.MACPayload).FHDR.FCtrl
+			q = built
+		}
+		q.MACPayload.(*lorawan.MACPayload).FHDR.FCnt = g.FCnt
+		c.Eval()
+		if err := libSetMIC(q, uplink, m); err != nil {
+			c.Fail("E/set-error", err.Error(), nil)
+			return
+		}
+		wire, err := q.MarshalBinary()
+		if err != nil || !bytes.Equal(wire[:len(wire)-4], g.Msg()) {
+			c.Outcome("E/frame-does-not-encode-to-the-model(see C01)")
+			return
+		}
+		c.NonTrivial()
+		want, _ := specMIC(g, m)
+		if [4]byte(q.MIC) != want {
+			c.Fail("E/set-differs-from-spec", fmt.Sprintf("frame decoded with %d FOpts bytes, then given %d (how=%d): library MIC %x, specification MIC of the emitted frame %x; v11=%v uplink=%v", ch[0], ch[1], ch[4], q.MIC[:], want[:], m.v11, uplink), nil)
+			return
+		}
+		var back lorawan.PHYPayload
+		if err := back.UnmarshalBinary(wire); err != nil {
+			c.Fail("E/decode-error", err.Error(), nil)
+			return
+		}
+		back.MACPayload.(*lorawan.MACPayload).FHDR.FCnt = g.FCnt
+		if ok, err := libValidateMIC(&back, uplink, m); err != nil || !ok {
+			c.Fail("E/validate-rejects-own-mic", fmt.Sprintf("frame decoded with %d FOpts bytes, then given %d: after encoding and decoding Validate=%v err=%v", ch[0], ch[1], ok, err), nil)
+		}
+	})
+
+	// ---- frames whose correct MIC is ffffffff / 00000000 (witness.go): set, validated, and validated after the wire
+	r.Part("conspicuous-mic-value", 1+uint64(len(witnessDownlink)), func(c *engine.Case) {
+		w := witnessUplink
+		f := spec.DataFrame{MType: 2, DevAddr: 0x01020304, FCnt: w.fcnt, HasPort: true, FPort: 10, FRM: w.frm}
+		if c.Index > 0 {
+			w = witnessDownlink[c.Index-1]
+			f = spec.DataFrame{MType: 3, DevAddr: 0x01020304, FCnt: w.fcnt, HasPort: true, FPort: 10, FRM: w.frm}
+		}
+		m := micParams{v11: false, fKey: witnessKey, sKey: witnessKey}
+		if got, _ := specMIC(f, m); got != w.mic {
+			r.HarnessError("witness uplink: the specification MIC is %x, not %x", got[:], w.mic[:])
+			return
+		}
+		p, err := buildFrame(f, nil, nil)
+		if err != nil {
+			c.Fail("harness/build", err.Error(), nil)
+			return
+		}
+		c02Check(c, "witness", f, p, m, []int{0, 31}, true)
+		wire, err := p.MarshalBinary()
+		if err != nil {
+			c.Fail("witness/marshal-error", err.Error(), nil)
+			return
+		}
+		var q lorawan.PHYPayload
+		if err := q.UnmarshalBinary(wire); err != nil {
+			c.Fail("witness/decode-error", err.Error(), nil)
+			return
+		}
+		q.MACPayload.(*lorawan.MACPayload).FHDR.FCnt = w.fcnt
+		if ok, err := libValidateMIC(&q, f.Uplink(), m); err != nil || !ok {
+			c.Fail("witness/validate-rejects-spec-mic", fmt.Sprintf("frame %x received from the wire (its correct MIC is %x): Validate=%v err=%v", wire, w.mic[:], ok, err), nil)
+		}
+	})
+
 	// ---- D: the same frame held in other value forms (FRMPayload / FOpts as several items, empty
 	// non-nil lists): the MIC is a function of the frame's serialisation, so every form that
 	// serialises to the same bytes has the same specification MIC
